@@ -3,6 +3,7 @@ package rules
 // T-DISPATCH, T-KIND, T-ENDIAN, R-REFLKIND for the NBT codec (C01, C02, C03, C04, C17).
 
 import (
+	"os"
 	"fmt"
 	"go/ast"
 	"go/constant"
@@ -183,6 +184,51 @@ func clauseFails(info *types.Info, cc *ast.CaseClause) bool {
 	return false
 }
 
+// dispatchParam: the SSA function of a tag dispatcher and the parameter it switches on, if it is one.
+func (c *Ctx) dispatchParam(ts *tagSwitch) (*ssa.Function, *ssa.Parameter) {
+	id, ok := ast.Unparen(ts.sw.Tag).(*ast.Ident)
+	if !ok {
+		return nil, nil
+	}
+	obj, ok := ts.pkg.TypesInfo.Uses[id].(*types.Var)
+	if !ok {
+		return nil, nil
+	}
+	fn := c.Fn(ts.fn)
+	if fn == nil {
+		return nil, nil
+	}
+	for _, p := range fn.Params {
+		if p.Object() == types.Object(obj) {
+			return fn, p
+		}
+	}
+	return nil, nil
+}
+
+// firstTagCompare: the block of the first comparison of the parameter with a constant.
+func firstTagCompare(fn *ssa.Function, p *ssa.Parameter) *ssa.BasicBlock {
+	for _, b := range fn.Blocks {
+		for _, in := range b.Instrs {
+			if bo, ok := in.(*ssa.BinOp); ok && (bo.Op == token.EQL || bo.Op == token.NEQ) {
+				if (bo.X == ssa.Value(p) || bo.Y == ssa.Value(p)) && (isConstVal(bo.X) || isConstVal(bo.Y)) {
+					// a comparison that decides a branch (not one computed as an argument)
+					if refs := bo.Referrers(); refs != nil {
+						for _, r := range *refs {
+							if _, isIf := r.(*ssa.If); isIf {
+								return b
+							}
+						}
+					}
+				}
+			}
+		}
+	}
+	return nil
+}
+
+func isConstVal(v ssa.Value) bool { _, ok := v.(*ssa.Const); return ok }
+
 // followingStmts: the statements after target in the statement list that contains it.
 func followingStmts(root ast.Node, target ast.Stmt) []ast.Stmt {
 	var out []ast.Stmt
@@ -237,6 +283,61 @@ func (c *Ctx) TagDispatch(pkgs ...string) []core.Ob {
 		isCodecMethod := strings.HasSuffix(ts.fn, ".UnmarshalNBT") || strings.HasSuffix(ts.fn, ".MarshalNBT")
 		if !full && !isCodecMethod {
 			// a mapping between tags (e.g. element tag -> array tag), not a dispatch on input
+			continue
+		}
+		// Where the dispatch is on a parameter of the function the three obligations are decided from
+		// the flow graph, whatever the spelling (switch, if chain, range guard up front): with the
+		// parameter assumed to be a given tag id, every return reached after the first tag comparison
+		// must carry a definite error for ids nothing handles, and may succeed for the value tags.
+		if fn, param := c.dispatchParam(ts); fn != nil && full {
+			outcome := func(v int64) (reached, allErr bool) {
+				entry := firstTagCompare(fn, param)
+				allErr = true
+				c.TLG().ProbeAssume(fn, param, AV{P: ivOf(v, v)}, func(in ssa.Instruction, _ func(ssa.Value) AV, _ func(string) (AV, bool)) {
+					r, ok := in.(*ssa.Return)
+					if !ok || entry == nil || !entry.Dominates(r.Block()) || len(r.Results) == 0 {
+						return
+					}
+					last := r.Results[len(r.Results)-1]
+					if !isErrorType(last.Type()) {
+						return
+					}
+					reached = true
+					if !c.TLG().ProbeErrNonNil(last) {
+						allErr = false
+						if os.Getenv("GMCHECK_DISPATCH_DEBUG") != "" {
+							fmt.Printf("dispatch %s tag=%d: return at %s may be nil (%s)\n", ts.fn, v, c.P.Pos(r.Pos()), last)
+						}
+					}
+				})
+				return
+			}
+			d := core.Ob{Rule: "T-DISPATCH", Key: key + ":unknown-tag-is-error", Pos: c.P.Pos(ts.pos), Func: ts.fn, Armed: true, Status: core.OK,
+				Want: "a tag id that no case handles leads to an error (a default clause that fails)"}
+			for _, v := range []int64{13, 100, 255} {
+				if reached, allErr := outcome(v); reached && !allErr {
+					d.Status, d.Got = core.Violated, fmt.Sprintf("with tag id %d a return that may carry a nil error is reachable: an unknown tag id is silently accepted", v)
+				}
+			}
+			cov := core.Ob{Rule: "T-DISPATCH", Key: key + ":covers-all-tags", Pos: c.P.Pos(ts.pos), Func: ts.fn, Armed: true, Status: core.OK,
+				Want: "a full tag dispatch handles every value tag TagByte..TagLongArray (1..12)"}
+			var missing []string
+			for v := int64(1); v <= 12; v++ {
+				if reached, allErr := outcome(v); !reached || allErr {
+					missing = append(missing, fmt.Sprint(v))
+				}
+			}
+			if len(missing) > 0 {
+				cov.Status, cov.Got = core.Violated, "tags that can only fail: "+strings.Join(missing, ",")
+			}
+			e := core.Ob{Rule: "T-DISPATCH", Key: key + ":TagEnd-is-error", Pos: c.P.Pos(ts.pos), Func: ts.fn, Armed: true, Status: core.OK,
+				Want: "TagEnd where a value is expected is an error (explicit failing case, or left to the failing default)"}
+			if why, allowed := endAllowed[ts.fn]; allowed {
+				e.Status, e.Reason, e.Got = core.Allowed, why, why
+			} else if reached, allErr := outcome(0); reached && !allErr {
+				e.Status, e.Got = core.Violated, "TagEnd is handled as a value"
+			}
+			obs = append(obs, d, cov, e)
 			continue
 		}
 		// (1) unknown tag ids are errors
